@@ -60,7 +60,7 @@ PROPS = {
     ),
     'C03': dict(
         verus=['tile_bbox', 'filters', 'overlay', 'converter', 'pmtiles_reader', 'versatiles_reader', 'pyramid_real', 'mbtiles_pyramid'],
-        kani=['pyramid'],
+        kani=['pyramid', 'pmtiles_runs'],
         not_decided=[
             'MBTiles: SQL snippets outside the translation table of unit mbtiles_pyramid (ANCHOR-LOST, exit 2); the zoom-gap behaviour (NULL -> Err)', 'tar/directory file-name parsing that feeds include_coord',
         ],
@@ -97,7 +97,7 @@ PROPS = {
     ),
     'C16': dict(
         verus=['pmtiles_dir', 'pmtiles_dir_dec', 'varint_pbf', 'pmtiles_reader', 'versatiles_reader', 'tile_index', 'block_index', 'mbtiles_pyramid'],
-        kani=['pmtiles_codec', 'versatiles_codec'],
+        kani=['pmtiles_codec', 'versatiles_codec', 'pmtiles_runs'],
         not_decided=[
             'MBTiles zoom gaps (SQL), ./-prefixed tar members (string code)',
             'reader descent through root + leaf directories (async, cache)',
